@@ -40,4 +40,18 @@ theorem pairwise_of_length_le_one {α : Type} {R : α → α → Prop} {l : List
     | nil => exact List.pairwise_singleton R a
     | cons b t' => simp at h
 
+theorem nodup_map_of_inj_on {α β : Type} {f : α → β} {l : List α} (hnd : l.Nodup)
+    (hinj : ∀ a ∈ l, ∀ b ∈ l, f a = f b → a = b) : (l.map f).Nodup := by
+  induction l with
+  | nil => exact List.nodup_nil
+  | cons x xs ih =>
+    have h := List.nodup_cons.mp hnd
+    rw [List.map_cons, List.nodup_cons]
+    refine ⟨?_, ih h.2 (fun a ha b hb => hinj a (List.mem_cons_of_mem _ ha) b (List.mem_cons_of_mem _ hb))⟩
+    intro hmem
+    obtain ⟨y, hy, hfy⟩ := List.mem_map.mp hmem
+    have := hinj y (List.mem_cons_of_mem _ hy) x List.mem_cons_self hfy
+    subst this
+    exact h.1 hy
+
 end Hta
